@@ -430,7 +430,83 @@ class XnDispatch(Lemma):
         return (abs(got - want) > 1e-8, {"model": "hem", "a": a, "b": b, "n": n, "native": float(got), "quadrature": want})
 
 
-UNITS = [ClosedForm(s) for s in MODELS.values()] + [XnExp(), XnDispatch(), DensityNonNegative()]
+class CGMYAnalytic(Lemma):
+    """CGMY closed forms in analytic mode (real integrate / integrate_against_x / integrate_against_xx / density bodies run over
+    symbolic expressions; incomplete-gamma calculus by sympy), activity regimes 0<y<1 and 1<y<2:
+      finite intervals on one side of zero: d/db I(a, b) = b^n nu(b), d/da I(a, b) = -a^n nu(a), I(a, a) = 0  (n = 0, 1);
+      infinite end: I(a, oo) - I(b, oo) = I(a, b) and d/da I(a, oo) = -a^n nu(a) (the base value at infinity itself -- the
+      incomplete gamma function vanishing there -- is left to the quadrature battery);
+      second moment over a straddling interval [-A, b]: derivative in each end point and value 0 for the empty interval,
+      also for the untempered fall-backs g = 0 and m = 0."""
+    prop = "C09"
+    cases = tuple((reg, kind) for reg in ("0<y<1", "1<y<2") for kind in ("P:n=0", "P:n=1", "N:n=0", "N:n=1", "S:n=2", "S:n=2,g=0", "S:n=2,m=0"))
+
+    def __init__(self):
+        self.name = "property:cgmy-closed-forms"
+
+    def prove(self, vc, case):
+        from contracts.c10 import install_oracle, S, zero_form
+        from pyvc.spval import SpVal, to_sp
+        reg, kind = case
+        nm = f"{self.name}[{reg},{kind}]"
+        lo, hi = (0.0, 1.0) if reg == "0<y<1" else (1.0, 2.0)
+        c, g, m, y = S("c", positive=True), S("g", positive=True), S("m", positive=True), S("y", positive=True)
+        A, B = S("A", positive=True), S("B", positive=True)       # magnitudes of the end points
+        facts = [f for f in (y > lo, y < hi, A < B) if f is not sp.true]
+        install_oracle(vc, dict(facts=facts, sample={c: 0.8, g: 6.0, m: 7.0, y: (lo + hi) / 2, A: 0.2, B: 0.5}), nm)
+        gv = SpVal(0) if "g=0" in kind else SpVal(g)
+        mv = SpVal(0) if "m=0" in kind else SpVal(m)
+        par = vc.obj("rpylib.model.levymodel.purejump.cgmy:CGMYParameters", c=SpVal(c), g=gv, m=mv, y=SpVal(y))
+        nu = vc.obj("rpylib.model.levymodel.purejump.cgmy:_CGMYLevyMeasure", parameters=par)
+        it = vc.interp
+        dens = lambda x: to_sp(it.call(nu, [SpVal(x)], {}))
+        samp = lambda rng: {c: rng.uniform(0.2, 2), g: rng.uniform(1, 10), m: rng.uniform(1, 10), y: rng.uniform(lo + 0.05, hi - 0.05),
+                            A: rng.uniform(0.05, 0.4), B: rng.uniform(0.45, 1.5)}
+        n = int(kind.split("n=")[1][0])
+        meth = {0: "integrate", 1: "integrate_against_x", 2: "integrate_against_xx"}[n]
+        if kind[0] in "PN":
+            sgn = 1 if kind[0] == "P" else -1
+            a, b = (A, B) if sgn > 0 else (-B, -A)          # a < b on the chosen side
+            val = to_sp(vc.method(nu, meth, SpVal(a), SpVal(b)))
+            # derivatives in the magnitudes: upper end b = sgn*B (P) / a = -B (N)
+            vc.check_zero(nm + "::derivative-in-the-upper-end-is-x^n-nu", lambda: zero_form(sp.diff(val, B if sgn > 0 else A) * (1 if sgn > 0 else -1) - (b ** n) * dens(b)), samp)
+            vc.check_zero(nm + "::derivative-in-the-lower-end-is-minus-x^n-nu", lambda: zero_form(sp.diff(val, A if sgn > 0 else B) * (1 if sgn > 0 else -1) + (a ** n) * dens(a)), samp)
+            vc.check_zero(nm + "::zero-on-the-empty-interval", lambda: zero_form(val.subs(B, A)), samp)
+            inf_a = to_sp(vc.method(nu, meth, SpVal(a), np.inf)) if sgn > 0 else to_sp(vc.method(nu, meth, -np.inf, SpVal(b)))
+            inf_b = to_sp(vc.method(nu, meth, SpVal(b), np.inf)) if sgn > 0 else to_sp(vc.method(nu, meth, -np.inf, SpVal(a)))
+            vc.check_zero(nm + "::infinite-end:additive-with-the-finite-interval", lambda: zero_form(inf_a - inf_b - val), samp)
+        else:
+            a, b = -A, B
+            val = to_sp(vc.method(nu, meth, SpVal(a), SpVal(b)))
+            vc.check_zero(nm + "::derivative-in-the-right-end-is-x^2-nu", lambda: zero_form(sp.diff(val, B) - B ** 2 * dens(B)), samp)
+            vc.check_zero(nm + "::derivative-in-the-left-end-is-minus-x^2-nu", lambda: zero_form(sp.diff(val, A) - A ** 2 * dens(-A)), samp)
+            # both end points -> 0: with y = lo + 1/(1+w), w > 0, the sign of every exponent is visible to the CAS
+            w, t = S("w", positive=True), S("t", positive=True)
+
+            def at_zero():
+                v = val.subs(y, sp.nsimplify(lo) + 1 / (1 + w)).subs({A: t, B: t})
+                try:
+                    return zero_form(sp.limit(sp.simplify(v), t, 0, "+"))
+                except Exception:
+                    return sp.Symbol("limit_not_computed")
+            vc.check_zero(nm + "::zero-on-the-empty-interval", at_zero, lambda rng: {w: rng.uniform(0.2, 3), c: 1.0, g: 2.0, m: 3.0})
+
+    def replay(self, model, clause, case):
+        from scipy.integrate import quad
+        from rpylib.model.levymodel.purejump.cgmy import CGMYParameters, _CGMYLevyMeasure
+        reg, kind = case
+        yv = 0.5 if reg == "0<y<1" else 1.5
+        nu = _CGMYLevyMeasure(CGMYParameters(c=0.8, g=0.0 if "g=0" in kind else 6.0, m=0.0 if "m=0" in kind else 7.0, y=yv))
+        n = int(kind.split("n=")[1][0])
+        meth = {0: "integrate", 1: "integrate_against_x", 2: "integrate_against_xx"}[n]
+        a, b = {"P": (0.2, 0.5), "N": (-0.5, -0.2), "S": (-0.5, 0.2)}[kind[0]]
+        got = float(getattr(nu, meth)(a, b))
+        f = lambda x: x ** n * nu(x)
+        want = quad(f, a, b, points=[0.0] if a < 0 < b else None, limit=400)[0] if not (a < 0 < b) else quad(f, a, -1e-12, limit=400)[0] + quad(f, 1e-12, b, limit=400)[0]
+        return (abs(got - want) > 1e-6 * max(1.0, abs(want)), {"parameters": repr(nu.parameters), "interval": [a, b], "moment": n, "closed_form": got, "quadrature": float(want)})
+
+
+UNITS = [ClosedForm(s) for s in MODELS.values()] + [XnExp(), XnDispatch(), DensityNonNegative(), CGMYAnalytic()]
 
 
 def LATE_UNITS():
